@@ -33,6 +33,10 @@ pub struct Transaction<SP: StorageProvider, PS> {
     perspective: Option<SP::Perspective>,
     /// Head of the current perspective
     phead: Option<CmdId>,
+    /// Where the current perspective was opened: its parent, or both parents
+    /// of a merge. These were taken out of `heads`, so until the perspective
+    /// is written their ancestors are reachable only from here.
+    pbase: Prior<Location>,
     /// Written but not committed heads
     heads: BTreeMap<CmdId, Location>,
     /// Tag for associated policy store
@@ -46,6 +50,7 @@ impl<SP: StorageProvider, PS> Transaction<SP, PS> {
             original_heads_offset: None,
             perspective: None,
             phead: None,
+            pbase: Prior::None,
             heads: BTreeMap::new(),
             policy_store: PhantomData,
         }
@@ -77,6 +82,14 @@ impl<SP: StorageProvider, PS: PolicyStore> Transaction<SP, PS> {
                 return Ok(Some(found));
             }
         }
+        // Search from what the unwritten perspective was opened on.
+        if self.perspective.is_some() {
+            for base in self.pbase {
+                if let Some(found) = storage.get_location_from(base, address, buffer)? {
+                    return Ok(Some(found));
+                }
+            }
+        }
         Ok(None)
     }
 
@@ -89,6 +102,7 @@ impl<SP: StorageProvider, PS: PolicyStore> Transaction<SP, PS> {
     pub fn flush(&mut self, storage: &mut SP::Storage) -> Result<(), ClientError> {
         if let Some(p) = Option::take(&mut self.perspective) {
             self.phead = None;
+            self.pbase = Prior::None;
             let segment = storage.write(p)?;
             self.heads
                 .insert(segment.head_id(), segment.head_location()?);
@@ -302,6 +316,7 @@ impl<SP: StorageProvider, PS: PolicyStore> Transaction<SP, PS> {
                 // as a head of the transaction.
                 self.perspective = None;
                 self.phead = None;
+                self.pbase = Prior::None;
                 if let Some(loc) = parent_tip {
                     self.heads.insert(parent.id, loc);
                 }
@@ -333,6 +348,7 @@ impl<SP: StorageProvider, PS: PolicyStore> Transaction<SP, PS> {
     {
         // Must always start a new perspective for merges.
         if let Some(p) = Option::take(&mut self.perspective) {
+            self.pbase = Prior::None;
             let seg = storage.write(p)?;
             self.heads.insert(seg.head_id(), seg.head_location()?);
         }
@@ -372,6 +388,7 @@ impl<SP: StorageProvider, PS: PolicyStore> Transaction<SP, PS> {
 
         self.perspective = Some(perspective);
         self.phead = Some(command.id());
+        self.pbase = Prior::Merge(left_loc, right_loc);
 
         Ok(true)
     }
@@ -397,6 +414,7 @@ impl<SP: StorageProvider, PS: PolicyStore> Transaction<SP, PS> {
         // Write out the current perspective.
         if let Some(p) = Option::take(&mut self.perspective) {
             self.phead = None;
+            self.pbase = Prior::None;
             let seg = storage.write(p)?;
             self.heads.insert(seg.head_id(), seg.head_location()?);
         }
@@ -411,6 +429,7 @@ impl<SP: StorageProvider, PS: PolicyStore> Transaction<SP, PS> {
             .insert(storage.get_linear_perspective(loc)?);
 
         self.phead = Some(parent.id);
+        self.pbase = Prior::Single(loc);
         self.heads.remove(&parent.id);
 
         Ok(p)
